@@ -5,6 +5,7 @@ sys.path.insert(0, "/verif")
 import verif
 
 LEVEL_TEXT = {
+ "C19": "Theorem (Lean 4): for any schedule, every thread's executor state is what it reaches alone in as many steps as the schedule gave it (so results are schedule- and history-independent), over a model in which a search step is a function of the shared program and thread-local state. The premises that make this the right model are checked on every run: the translator regenerates an inventory of every interior-mutability / shared-state type occurring in src/*.rs and `decide` proves it empty; rustc checks Send+Sync for Regex, Match, Error, Flags when the harness is built; a stress run compares sequential results with reordered and 16-thread concurrent results on shared and cloned regexes.",
  "C09": "Theorems (Lean 4, all inputs) about the model of exec::Matches and the three next_match loops, parametric in an arbitrary matcher satisfying EnvOK: the iterator equals the lastIndex unfold, results increase, never overlap, number at most len-start+1, the iterator stays exhausted, a start beyond the end yields nothing, and the prefilter is transparent. The model is tied to the code by running model and implementation on attempt tables taken from the real executors (every start offset, both executors).",
  "C11": "The property quantifies over a finite domain (all names x all code points); it is closed exhaustively in the Lean kernel: the name maps and all 368 interval tables are regenerated from src/unicodetables.rs on every run, and `decide +kernel` shows that regress's accepted names and their tables are literally ICU 78.2's (Unicode 17) for lone names, gc=, sc=, scx=; lifted to every name and code point by proved lemmas. The engine path (parser -> bracket -> runtime contains) is tied by dumping the table the real parser builds for every candidate name and sweeping all scalar values through the real matcher.",
  "C12": "Full functional-correctness theorems (all inputs, by induction) for the model of CodePointSet: add, add_one, add_set, inverted, inverted_interval_count, remove, intersect, contains (including std's binary search and equal_range_by transcribed and proved equal to the linear scan). Tied to the code by running the real functions through the cfg(regress_verif) wrappers on random well-formed sets. The parser-level half of the property (class syntax -> set) is covered by differential cases only (see level_note).",
@@ -13,6 +14,7 @@ LEVEL_TEXT = {
  "C18": "Theorems about the model of escape (the 14-character list is regenerated from api.rs by the translator): only backslashes are inserted, every syntax character is escaped. The behavioural half (escape(s) compiles under all 12 flag sets and finds exactly the occurrences of s) is an exhaustive enumeration of all short strings over the syntax alphabet against substring search - a bounded test, stated as such.",
 }
 NOTES = {
+ "C19": "Not modelled and named as such: the Rust memory model, real thread scheduling, and that the auto traits really hold - the latter is checked by rustc on every build of the harness (assert_send_sync::<Regex/Match/Error>), the former two are only exercised by the 16-thread stress run. The theorem itself is simple by design: in the model a step takes the program as an argument and returns only executor-local state.",
  "C09": "Assumes EnvOK (attempts end within the haystack, next_right_pos progresses) - discharged per case by the data taken from the real executors; the matcher itself is abstract here (its model is the VM files). Model vs code: differential, bounded by the generator.",
  "C11": "Trusted: the ICU 78.2 snapshot as observed through V8 (oracle/props17.json), the translator (its output is cross-checked against the table the real parser builds for every name). Properties of strings (\\p{RGI_Emoji} etc.) are only checked for accept/reject rules, not for content (V8 cannot enumerate them).",
  "C12": "std's Vec/slice operations are modelled as list operations. Only the set algebra is proved; class parsing (consume_bracket, consume_class_set_expression) is not yet modelled.",
